@@ -115,6 +115,8 @@ impl Property for C02 {
 pub enum C03Case {
     Seq(History),
     Sched(WakeCase),
+    /// Multi-completion driver (multishot accept, zero-copy sends).
+    Multi(MultiCase),
 }
 
 pub struct C03;
@@ -130,7 +132,8 @@ impl Property for C03 {
             C03Case::Sched(WakeCase { sq_log2, gap: 4, submitters: vec![(2, repoll)], polls, complete_before_poll: vec![false, true, true], shared_waker: true, executor_rounds: 6, ring_waits: true, wake_tape })
         });
         let seq = (strat::ring_cfg(2), proptest::collection::vec(strat::step(strat::kind_basic().boxed(), 1, 1), 0..70)).prop_map(|(cfg, steps)| C03Case::Seq(History { cfg, steps, teardown: None }));
-        prop_oneof![6 => seq, 3 => sched, 1 => batch].boxed()
+        let multi = multi::strategy().prop_map(C03Case::Multi);
+        prop_oneof![6 => seq, 3 => sched, 1 => batch, 2 => multi].boxed()
     }
     fn cases(tier: Tier) -> u32 {
         tier.pick(6_000, 400_000)
@@ -138,6 +141,7 @@ impl Property for C03 {
     fn run(case: &C03Case, ctx: &mut Ctx) {
         let case = match case {
             C03Case::Seq(h) => h,
+            C03Case::Multi(m) => return run_multi(m, ctx, "C03", &["completion-while-pending"]),
             C03Case::Sched(w) => {
                 let classes = super::c03b::run(w, ctx);
                 ctx.class("scheduled");
@@ -155,7 +159,7 @@ impl Property for C03 {
         ctx.fingerprint = super::fingerprint(case, &feats);
     }
     fn rule() -> &'static str {
-        "C03a: proptest histories on 1..4-entry rings where every poll gets a counting waker (same or replaced); quiescence check after every Ring::poll: each operation whose final completion this call consumed and whose last poll returned Pending must have had the waker of that poll invoked; operations that returned Pending on a full queue must be woken (at least min(free slots, blocked)) by the Ring::poll after which slots are free. Non-trivial = a waker was replaced before a completion was consumed, or blocked operations were woken for queue space. Distinct = distinct (ring class, feature set) fingerprints. C03b (2 of 5 cases, props/c03b.rs): 1..3 submitter threads poll 1..2 operations each (optionally a second time with a replaced waker) into a 1..4 entry queue primed to 0..2 free slots, while the ring thread runs 1..3 Ring::poll calls (optionally after the kernel completed what it had consumed), all under the baton scheduler following a generated choice tape; afterwards an executor re-polls only operations whose latest waker was invoked, first with the kernel completing nothing (a future waiting for queue space must be woken by Ring::poll alone once there is room), then with the kernel completing everything; a stall with free slots is a lost queue-space wake-up, a stall after every completion was consumed is a lost completion wake-up. Non-trivial (scheduled) = a context switch inside a10 and more operations than slots."
+        "C03a: proptest histories on 1..4-entry rings where every poll gets a counting waker (same or replaced); quiescence check after every Ring::poll: each operation whose final completion this call consumed and whose last poll returned Pending must have had the waker of that poll invoked; operations that returned Pending on a full queue must be woken (at least min(free slots, blocked)) by the Ring::poll after which slots are free. Non-trivial = a waker was replaced before a completion was consumed, or blocked operations were woken for queue space. Distinct = distinct (ring class, feature set) fingerprints. C03b (2 of 5 cases, props/c03b.rs): 1..3 submitter threads poll 1..2 operations each (optionally a second time with a replaced waker) into a 1..4 entry queue primed to 0..2 free slots, while the ring thread runs 1..3 Ring::poll calls (optionally after the kernel completed what it had consumed), all under the baton scheduler following a generated choice tape; afterwards an executor re-polls only operations whose latest waker was invoked, first with the kernel completing nothing (a future waiting for queue space must be woken by Ring::poll alone once there is room), then with the kernel completing everything; a stall with free slots is a lost queue-space wake-up, a stall after every completion was consumed is a lost completion wake-up. Non-trivial (scheduled) = a context switch inside a10 and more operations than slots. One case in six runs the multi-completion driver (multishot accept, zero-copy sends, writes; polls with the same or a replaced waker between completions): whenever Ring::poll consumes the completion that makes an operation ready (multishot: any result; zero-copy: the notification, not the first completion) and its last poll returned Pending, the waker of that poll must have been invoked."
     }
     fn assumptions() -> Vec<&'static str> {
         vec![SIM_ASSUMPTION, "liveness is checked in its safety form (no ready-but-unwoken operation when Ring::poll returns), single thread; cross-thread schedules are the C03b sub-check"]
@@ -242,7 +246,7 @@ impl Property for C12 {
     const ID: &'static str = "C12";
     type Case = History;
     fn strategy(_tier: Tier) -> BoxedStrategy<History> {
-        (strat::ring_cfg(3), proptest::collection::vec(strat::step(strat::kind_basic().boxed(), 1, 3), 0..40), strat::teardown())
+        (strat::ring_cfg_wide(), proptest::collection::vec(strat::step(strat::kind_basic().boxed(), 1, 3), 0..40), strat::teardown())
             .prop_map(|(mut cfg, steps, teardown)| {
                 // In-flight operations at Ring drop must fit the completion
                 // queue in the default generator: at least 16 CQ entries.
